@@ -4,10 +4,12 @@ import (
 	"encoding/json"
 	"fmt"
 
+	parser "github.com/acekingke/yaccgo/Parser"
 	utils "github.com/acekingke/yaccgo/Utils"
 	"github.com/acekingke/yaccgo/verifsched"
 
 	"verifharness/gen"
+	"verifharness/gram"
 	"verifharness/lrm"
 	"verifharness/ygo"
 )
@@ -27,6 +29,7 @@ func init() {
 		Work: func(w *Worker) {
 			c05Matrices(w)
 			c05WideMatrices(w)
+			c05MatrixHistories(w)
 			forEachGrammar(w, classesFor(w), false, true, func(idx int64, c *GCase) { c05Eval(w, c) })
 			genPhase(w, "C05")
 		},
@@ -40,6 +43,19 @@ func init() {
 				var m [][]int
 				json.Unmarshal(c.Extra, &m)
 				c05OneMatrix(w, m)
+			case c.Origin == "matrix-history":
+				var ms [][][]int
+				json.Unmarshal(c.Extra, &ms)
+				if len(ms) == 2 {
+					c05MatrixPair(w, ms[0], ms[1])
+				}
+			case c.Origin == "grammar-history" && c.Spec != nil:
+				var later gram.Spec
+				if json.Unmarshal(c.Extra, &later) == nil {
+					c05Prev = nil
+					c05Eval(w, &GCase{Origin: "replay", Spec: c.Spec})
+					c05Eval(w, &GCase{Origin: "replay", Spec: &later})
+				}
 			case c.Origin == "gen":
 				genReplay(w, "C05", &c)
 			case c.Spec != nil:
@@ -121,6 +137,73 @@ func c05WideMatrices(w *Worker) {
 	}
 }
 
+// c05MatrixHistories: the result of one PackTable call must still read back as its matrix after a
+// later call (a program that generates more than one parser keeps the earlier arrays): every ordered
+// pair (m1, m2) with m1 a 2x3 matrix over {0, 7, -3} and m2 a 1x4 matrix over {0, 7, -3} or a 2x3
+// matrix over {0, 7}.
+func c05MatrixHistories(w *Worker) {
+	mk := func(rows, cols, vals, code int) [][]int {
+		m := make([][]int, rows)
+		for r := range m {
+			m[r] = make([]int, cols)
+			for j := range m[r] {
+				m[r][j] = []int{0, 7, -3}[code%vals]
+				code /= vals
+			}
+		}
+		return m
+	}
+	var seconds [][][]int
+	for code := 0; code < 81; code++ {
+		seconds = append(seconds, mk(1, 4, 3, code))
+	}
+	for code := 0; code < 64; code++ {
+		seconds = append(seconds, mk(2, 3, 2, code))
+	}
+	idx := int64(1) << 40
+	for code := 0; code < 729; code++ {
+		m1 := mk(2, 3, 3, code)
+		for _, m2 := range seconds {
+			if w.Mine(idx) {
+				if idx%4096 == 0 {
+					w.Begin(idx, &GCase{Origin: "matrix-history", Extra: mustJSON([][][]int{m1, m2})})
+				}
+				c05MatrixPair(w, m1, m2)
+			}
+			idx++
+		}
+	}
+}
+
+func c05MatrixPair(w *Worker, m1, m2 [][]int) {
+	w.Count("evaluations", 1)
+	w.Count("matrix_histories", 1)
+	cp := func(m [][]int) [][]int {
+		o := make([][]int, len(m))
+		for i := range m {
+			o[i] = append([]int(nil), m[i]...)
+		}
+		return o
+	}
+	var un [][]int
+	var pan interface{}
+	func() {
+		defer func() { pan = recover() }()
+		verifsched.Begin(verifsched.Choice{}, nil, 5_000_000, false)
+		T, D, C := utils.PackTable(cp(m1))
+		utils.PackTable(cp(m2))
+		un = utils.UnPackTable(len(m1), len(m1[0]), T, D, C)
+		verifsched.End()
+	}()
+	if pan != nil {
+		return // single calls are judged by c05OneMatrix
+	}
+	if fmt.Sprint(un) != fmt.Sprint(m1) {
+		w.Violate("C05|packtable-result-changed-by-later-call|"+fmt.Sprint(m1, m2), fmt.Sprintf("T, D, C := PackTable(%v); PackTable(%v); UnPackTable(T, D, C) = %v", m1, m2, un),
+			&GCase{Origin: "matrix-history", Extra: mustJSON([][][]int{m1, m2})}, nil)
+	}
+}
+
 func c05OneMatrix(w *Worker, m [][]int) {
 	w.Count("evaluations", 1)
 	w.Count("matrices", 1)
@@ -174,6 +257,37 @@ func c05OneMatrix(w *Worker, m [][]int) {
 	}
 }
 
+// c05Prev is the last packed table this worker built (with its grammar): after the next grammar has
+// been built, every cell of the earlier one is looked up again.
+var c05Prev *struct {
+	c *GCase
+	v *parser.RootVistor
+}
+
+func c05Recheck(w *Worker, later *GCase) {
+	p := c05Prev
+	if p == nil {
+		return
+	}
+	pm := lrm.Packed(p.v)
+	if pm == nil {
+		return
+	}
+	w.Count("earlier_tables_rechecked_after_a_later_build", 1)
+	for s, row := range p.v.GTable {
+		for a, want := range row {
+			got, ok := pm.Lookup(s, a)
+			if !ok || got != want {
+				key := p.c.Spec.Key()
+				c05Prev = nil
+				w.Violate("C05|packed-cell-changed-by-later-build|"+key, fmt.Sprintf("grammar [%s]: after a parser for [%s] was built in the same process, cell (state %d, symbol %s) of the EARLIER grammar is %d in its table and %d through its packed arrays (index ok=%v)", key, later.Spec.Key(), s, p.v.G.Symbols[a].Name, want, got, ok),
+					&GCase{Origin: "grammar-history", Spec: p.c.Spec, Extra: mustJSON(later.Spec)}, nil)
+				return
+			}
+		}
+	}
+}
+
 func c05Eval(w *Worker, c *GCase) {
 	w.Count("evaluations", 1)
 	g := refOf(c)
@@ -183,6 +297,7 @@ func c05Eval(w *Worker, c *GCase) {
 	}
 	key := c.Spec.Key()
 	text := c.Spec.Render()
+	var keep *parser.RootVistor
 	for _, ord := range []verifsched.Choice{{Kind: verifsched.Canon}, {Kind: verifsched.Reverse}} {
 		res := ygo.Build(text, ygo.Options{Fuel: buildFuel, Order: ord})
 		if !res.OK() {
@@ -190,6 +305,8 @@ func c05Eval(w *Worker, c *GCase) {
 			return
 		}
 		v := res.V
+		c05Recheck(w, c)
+		keep = v
 		pm := lrm.Packed(v)
 		if pm == nil {
 			w.Count("tables_not_packed", 1)
@@ -219,6 +336,12 @@ func c05Eval(w *Worker, c *GCase) {
 				}
 			}
 		}
+	}
+	if keep != nil {
+		c05Prev = &struct {
+			c *GCase
+			v *parser.RootVistor
+		}{c, keep}
 	}
 	w.SampleEvery(w.Out.Counters["evaluations"], 4999, func() interface{} { return map[string]interface{}{"grammar": key} })
 }
